@@ -154,9 +154,8 @@ Lemma sj_refl a : same_jobs a a. Proof. reflexivity. Qed.
 Lemma good_do_apply s so ha lo slot : Good s (fst (do_apply s so ha lo slot)).
 Proof.
   unfold do_apply.
-  destruct ((match slot with Some b => b | None => putlocks s end) && (LaxSem.value (sem s) =? 0));
-    [apply Good_refl|].
-  destruct (negb (pstate s =? 0)); [apply Good_refl|]. cbn [fst].
+  destruct (negb (pstate s =? 0)); [apply Good_refl|].
+  destruct ((match slot with Some b => b | None => putlocks s end) && (LaxSem.value (sem s) =? 0)); [apply Good_refl|]. cbn [fst].
   set (s1 := if match slot with Some b => b | None => putlocks s end
              then with_sem s (sstep' (sem s) Acquire) else s).
   assert (Hs1 : same_jobs s s1) by (unfold s1; destruct (match slot with Some b => b | None => putlocks s end); auto with pool).
